@@ -179,6 +179,9 @@ func runC01(c *ctxT) {
 	for i := 0; i < c.scale(6, 40); i++ {
 		udpConcurrent(c, i)
 	}
+	for i := 0; i < c.scale(4, 24); i++ {
+		quicDeadlineTells(c, i)
+	}
 	r := c.rng
 	n := c.scale(160, 3000)
 	for i := 0; i < n; i++ {
